@@ -2544,7 +2544,7 @@ func (p *Parser) lookaheadSubQuery() bool {
 		nest++
 		p.nextToken()
 	}
-	if nest == 0 || p.Token.Kind != "SELECT" {
+	if nest == 0 || !p.lookaheadQueryStart() {
 		return false
 	}
 
